@@ -20,6 +20,7 @@ import PrqlModel.Drv.Order
 import PrqlModel.Drv.Expr
 import PrqlModel.Drv.Rq
 import PrqlModel.Drv.Scope
+import PrqlModel.Drv.Anchor
 namespace Drv
 
 def handlers : List (List String → Option String) := [
@@ -38,7 +39,8 @@ def handlers : List (List String → Option String) := [
   Drv.Order.handle,
   Drv.Expr.handle,
   Drv.Rq.handle,
-  Drv.Scope.handle
+  Drv.Scope.handle,
+  Drv.Anchor.handle
 ]
 
 def handle (fields : List String) : String :=
